@@ -575,6 +575,12 @@ def run(idx: ProgramIndex, rep: Report, tier: str, selftest: bool = True):
     rep.rule("C07.P8", "in product-structured operators each hand-written gradient depends on every other factor", floor=3)
     check_product_dependence(idx, rep)
 
+    from .c07_lin import check_linearity
+
+    rep.rule("C07.L", "backward is linear in every upstream gradient: each returned entry depends on one, none is of degree 2", floor=20)
+    rep.rule("C07.P9", "contributions of distinct upstream gradients are accumulated independently", floor=2)
+    check_linearity(idx, rep, collect_functions(idx))
+
     if selftest:
         from ..selftest import run_fixtures
 
